@@ -130,6 +130,7 @@ def gen_grid(rng):
             "method": method, "levels": levels, "target_kind": target_kind, "tname": tname,
             "target_dim": target_dim, "mask": rng.random() < 0.7, "bypass": False,
             "suffix": rng.choice([None, "", "_SFX", "_transformed"]), "periodic": rng.random() < 0.04,
+            "td_int": rng.random() < 0.3,
             "has_outer": method == "conservative" or rng.random() < 0.6}
 
 
@@ -156,7 +157,9 @@ def build_grid_call(case):
                       dims=[d for d, _ in case["dims"]], name=case["da_name"])
     td = None
     if case["td_given"]:
-        td = xr.DataArray(np.array(case["td_vals"], dtype=float).reshape([l for _, l in case["tdims"]]),
+        # target_data is often an integer field (a level index, pressure in hPa): same numbers, int dtype
+        td_dtype = int if case.get("td_int") and all(float(v).is_integer() for v in case["td_vals"]) else float
+        td = xr.DataArray(np.array(case["td_vals"], dtype=td_dtype).reshape([l for _, l in case["tdims"]]),
                           dims=[d for d, _ in case["tdims"]], name=case["td_name"])
     lev = np.array(case["levels"], dtype=float)
     if case["target_kind"] == "arr":
